@@ -65,15 +65,89 @@ def mk_register_classes(regs):
             (Register,),
             {"IDENTIFIER": codec.dec_str(rd["ident"]), "IDENTIFIER_DIGITS": rd["digits"], "LINE": Line(fields, delimiter=delim), "__slots__": []},
         )
-        out.append(cls)
+        out.append(derived(cls, i))
     return out
 
 
-def mk_register_file(regs, storage="TEXT", classes=None):
+def derived(cls, i):
+    """every other declared type is an empty subclass of the class that carries the
+    declarations (IDENTIFIER, LINE, patterns, read/write ...): what a type inherits must
+    work like what it declares itself"""
+    return type(cls.__name__ + "Child", (cls,), {"__slots__": []}) if i % 2 == 1 else cls
+
+
+def mk_register_file(regs, storage="TEXT", classes=None, io=None):
+    """`io` = None (in-memory I/O) or {"enc": <codec>}: a file class that declares that
+    ENCODING, whose I/O the harness routes through a scratch directory"""
     from cfinterface.files.registerfile import RegisterFile
 
     classes = classes if classes is not None else mk_register_classes(regs)
-    return type("RF", (RegisterFile,), {"REGISTERS": classes, "STORAGE": storage, "__slots__": []}), classes
+    ns = {"REGISTERS": classes, "STORAGE": storage, "__slots__": []}
+    if io:
+        ns["ENCODING"] = io["enc"]
+    return derived(type("RF", (RegisterFile,), ns), len(regs)), classes
+
+
+# ---- I/O routes of a text file: in memory (content string / StringIO) or through paths on disk.
+# The properties about file contents (C04, C05, C06) do not depend on the medium: the same
+# statement is checked through both routes (the equivalence of the routes itself is C16).
+DISK_ENCODINGS = ["utf-8", "latin-1"]
+NON_ASCII = "ãéçñüº³"  # encodable in every DISK_ENCODINGS member, no white space, no line ends
+
+
+def io_of(rng, texts=(), p=0.25):
+    """a disk route for a quarter of the cases; the declared encoding is one that can
+    hold every character of `texts` (utf-8 otherwise)"""
+    if rng.random() >= p:
+        return None
+    enc = rng.choice(DISK_ENCODINGS)
+    try:
+        for t in texts:
+            t.encode(enc)
+    except UnicodeEncodeError:
+        enc = "utf-8"
+    try:
+        for t in texts:
+            t.encode(enc)
+    except UnicodeEncodeError:  # lone surrogates and the like: stay in memory
+        return None
+    return {"enc": enc}
+
+
+def read_text(F, content, io, *extra):
+    """F.read of a text content, in memory or from a path holding it in F's declared encoding"""
+    if not io:
+        return F.read(content, *extra)
+    import os, shutil, tempfile
+
+    d = tempfile.mkdtemp(prefix="cfi-io-")
+    try:
+        path = os.path.join(d, "in.dat")
+        with open(path, "wb") as fh:
+            fh.write(content.encode(io["enc"]))
+        return F.read(path, *extra)
+    finally:
+        shutil.rmtree(d, ignore_errors=True)
+
+
+def write_text(f, io):
+    """the text a file writes, through a StringIO or through a path (decoded with the declared encoding)"""
+    if not io:
+        from io import StringIO
+
+        buf = StringIO()
+        f.write(buf)
+        return buf.getvalue()
+    import os, shutil, tempfile
+
+    d = tempfile.mkdtemp(prefix="cfi-io-")
+    try:
+        path = os.path.join(d, "out.dat")
+        f.write(path)
+        with open(path, "rb") as fh:
+            return fh.read().decode(io["enc"])
+    finally:
+        shutil.rmtree(d, ignore_errors=True)
 
 
 def enc_relem(e, classes):
@@ -154,7 +228,7 @@ def mk_block_classes(blocks, binary=False):
         def eq(self, o):
             return isinstance(o, self.__class__) and o.data == self.data
 
-        cls = type(f"Blk{i}", (Block,), {"BEGIN_PATTERN": beg, "END_PATTERN": end, "read": read, "write": write, "__eq__": eq, "__hash__": None, "__slots__": []})
+        cls = derived(type(f"Blk{i}", (Block,), {"BEGIN_PATTERN": beg, "END_PATTERN": end, "read": read, "write": write, "__eq__": eq, "__hash__": None, "__slots__": []}), i)
         out.append(cls)
     return out
 
@@ -163,7 +237,7 @@ def mk_block_file(blocks, binary=False, classes=None):
     from cfinterface.files.blockfile import BlockFile
 
     classes = classes if classes is not None else mk_block_classes(blocks, binary)
-    return type("BF", (BlockFile,), {"BLOCKS": classes, "STORAGE": "BINARY" if binary else "TEXT", "__slots__": []}), classes
+    return derived(type("BF", (BlockFile,), {"BLOCKS": classes, "STORAGE": "BINARY" if binary else "TEXT", "__slots__": []}), len(classes)), classes
 
 
 def enc_belem(e, classes, binary):
@@ -223,7 +297,7 @@ def mk_section_classes(secs):
         def eq(self, o):
             return isinstance(o, self.__class__) and o.data == self.data
 
-        out.append(type(f"Sec{i}", (Section,), {"read": read, "write": write, "__eq__": eq, "__hash__": None, "__slots__": []}))
+        out.append(derived(type(f"Sec{i}", (Section,), {"read": read, "write": write, "__eq__": eq, "__hash__": None, "__slots__": []}), i))
     return out
 
 
@@ -231,7 +305,7 @@ def mk_section_file(secs, classes=None):
     from cfinterface.files.sectionfile import SectionFile
 
     classes = classes if classes is not None else mk_section_classes(secs)
-    return type("SF", (SectionFile,), {"SECTIONS": classes, "STORAGE": "TEXT", "__slots__": []}), classes
+    return derived(type("SF", (SectionFile,), {"SECTIONS": classes, "STORAGE": "TEXT", "__slots__": []}), len(classes)), classes
 
 
 def enc_selem(e, classes):
